@@ -449,8 +449,10 @@ class Report:
         }
         if self.notes:
             ev["coverage"]["notes"] = self.notes
-        p = VERIF / "evidence" / f"{self.prop}.json"
-        p.parent.mkdir(exist_ok=True)
+        # runs against a scratch copy of the repository (VERIF_REPO set: seeded-change tests)
+        # must not overwrite the evidence of the real tree
+        p = VERIF / "evidence" / ("scratch" if str(REPO) != "/repo" else "") / f"{self.prop}.json"
+        p.parent.mkdir(parents=True, exist_ok=True)
         p.write_text(json.dumps(ev, indent=1, default=str))
         try:
             import jsonschema
